@@ -122,7 +122,7 @@ class GFun(rwfrag.GSem):
         """h(p): recursion on a decreasing argument; p is never reassigned"""
         saved = self.vars
         self.vars = ["a", "b", "p", "p"]
-        pre = [l for l in self.stmts(1, self.rng.choice([0, 1]), infun=False) if not l.lstrip().startswith("p =")]
+        pre = self.stmts(1, self.rng.choice([0, 1]), infun=False)
         self.vars = saved
         body = ["if p <= 0:", "    return %s" % self.rng.choice(["0", "1", "a", "None"])] + pre + \
                [self.rng.choice(["d = h(p - 1)", "return h(p - 1)", "h(p - 1)", "d = h(p - 2)"])] + \
